@@ -359,6 +359,18 @@ fn nfc_extract_digit_assignmul<O: AssignOp>(base2k: usize, scale: usize, res: &m
 // Normalization internals
 // ──────────────────────────────────────────────────────────────────────────────
 
+/// Moves `carry` up through `limbs` limb positions that hold no data (positions strictly below the last limb of
+/// the result when the offset exceeds its precision): each one divides the carry by 2^base2k (rounded).
+#[inline(always)]
+fn nfc_carry_skip_empty_limbs(base2k: usize, limbs: usize, carry: &mut [i128]) {
+    for _ in 0..limbs {
+        carry.iter_mut().for_each(|c| {
+            let digit: i128 = get_digit_i128(base2k, *c);
+            *c = get_carry_i128(base2k, *c, digit);
+        });
+    }
+}
+
 /// Inter-base2k normalization: same base for input (`a`) and output (`res`).
 ///
 /// Structurally identical to `vec_znx_normalize_inter_base2k` but with `i128` input
@@ -415,6 +427,9 @@ fn ntt120_vec_znx_big_normalize_inter<R, A, BE>(
     if a_out_range == 0 {
         nfc_zero(carry);
     }
+
+    // Negative offset larger than the precision of res: the carry first crosses the limbs below the last one of res.
+    nfc_carry_skip_empty_limbs(base2k, ((-limbs_offset).max(0) as usize).saturating_sub(res_size), carry);
 
     // Zero bottom res limbs that will not receive a value.
     for j in res_start..res_size {
@@ -645,6 +660,9 @@ fn ntt120_vec_znx_big_normalize_inter_assign<O, R, A, BE>(
     if a_out_range == 0 {
         nfc_zero(carry);
     }
+
+    // Negative offset larger than the precision of res: the carry first crosses the limbs below the last one of res.
+    nfc_carry_skip_empty_limbs(base2k, ((-limbs_offset).max(0) as usize).saturating_sub(res_size), carry);
 
     let mid_range: usize = a_start.saturating_sub(a_end);
     for j in 0..mid_range {
